@@ -164,7 +164,7 @@ def histories(ctx: Ctx):
         steps = [(c, d, f) for c in range(3) for d in docs for f in (True,)]
         for a, b in itertools.product(steps, repeat=2):
             for depth in range(1, NCONF + 1):
-                if depth in (7, 8) and not (a[0] == 0 and b[0] != 0):
+                if depth in (7, 8) and a[0] != 0:
                     continue
                 i += 1
                 if ctx.mine(i):
@@ -180,10 +180,11 @@ def histories(ctx: Ctx):
         if k == 0:
             h = [(0, "d404", True), (1, "d422_500", True), (0, "d404", True), (2, "dnone", True)]
         if depth in (7, 8):
-            # the owner of the embedded core comes first and is never force-regenerated afterwards (forcing it removes its
-            # own package directory, core included - the user's own act); the others join and change freely
-            first_doc = rng.choice(docs)
-            h = [(0, first_doc, True)] + [(c, (first_doc if c == 0 else d), (False if c == 0 else f)) for c, d, f in h[1:]]
+            # the owner of the embedded core comes first; afterwards every client - the owner too - is generated, regenerated
+            # and force-regenerated freely (forcing the owner clears its package directory, the shared core inside it included)
+            h = [(0, rng.choice(docs), True)] + h[1:]
+            if k == 1:
+                h = [(0, "d404", True), (1, "d422_500", True), (0, "d404_409_503", True), (2, "dnone", True)]
         yield depth, h
 
 
